@@ -635,5 +635,10 @@ func init() {
 		Cases:   c03Cases,
 		Exec:    c03Exec,
 		Workers: 12,
+		// decoding independent documents with independent decoders shares nothing the caller
+		// can see: a data race with a library frame in the concurrent cases means decoders
+		// share mutable state, and what one of them returns then depends on the schedule
+		// (the functional comparison alone catches that only on unlucky interleavings)
+		RaceIsViolation: true,
 	})
 }
